@@ -61,6 +61,16 @@ static void mode_pairs(void) {
     mzd_t *A = mzd_init(3, 5), *B = mzd_init(3, 6), *C = mzd_init(4, 5);
     VX_CHECK(!mzd_equal(A, B) && !mzd_equal(A, C) && !mzd_equal(B, A), "mzd_equal", "dimensions", "matrices of different dimensions reported equal");
     VX_CHECK(mzd_cmp(A, B) != 0 && mzd_cmp(A, C) != 0 && sgn(mzd_cmp(A, B)) == -sgn(mzd_cmp(B, A)), "mzd_cmp", "dimensions", "cmp on different dimensions");
+    VX_CHECK(mzd_equal(A, A) && mzd_cmp(A, A) == 0, "mzd_equal", "same-object", "a matrix is not equal to itself");
+    { /* all ordered pairs over a grid of dimensions (contents differ too): never 0 across dimensions, antisymmetric, transitive */
+      static const int DR[] = {1, 3, 4, 64}, DC[] = {1, 5, 6, 64, 65, 130}; mzd_t *G[24]; int ng = 0;
+      for (int a = 0; a < 4; a++) for (int b = 0; b < 6; b++) { G[ng] = mzd_init(DR[a], DC[b]); mzd_write_bit(G[ng], DR[a] - 1, DC[b] - 1, (a + b) & 1); ng++; }
+      for (int x = 0; x < ng; x++) for (int y = 0; y < ng; y++) { int cxy = sgn(mzd_cmp(G[x], G[y])), cyx = sgn(mzd_cmp(G[y], G[x]));
+        if ((cxy == 0) != (x == y)) vx_fail("mzd_cmp", "dimensions", "cmp(%dx%d, %dx%d) == 0 iff same: got %d", G[x]->nrows, G[x]->ncols, G[y]->nrows, G[y]->ncols, cxy);
+        if (cxy != -cyx) vx_fail("mzd_cmp", "antisymmetry", "cmp(%dx%d, %dx%d) = %d but reversed = %d", G[x]->nrows, G[x]->ncols, G[y]->nrows, G[y]->ncols, cxy, cyx);
+        if ((mzd_equal(G[x], G[y]) != 0) != (x == y)) vx_fail("mzd_equal", "dimensions", "equal(%dx%d, %dx%d) wrong", G[x]->nrows, G[x]->ncols, G[y]->nrows, G[y]->ncols);
+        for (int z = 0; z < ng; z++) { int cyz = sgn(mzd_cmp(G[y], G[z])), cxz = sgn(mzd_cmp(G[x], G[z])); if (cxy <= 0 && cyz <= 0 && cxz > 0) vx_fail("mzd_cmp", "transitivity", "dimension grid %d %d %d", x, y, z); } }
+      for (int x = 0; x < ng; x++) mzd_free(G[x]); }
     mzd_free(A); mzd_free(B); mzd_free(C); vx_input(77, 1); vx_case_end();
   }
 }
